@@ -267,7 +267,10 @@ func roundJSONNumber(val json.Number) (int64, bool) {
 
 	exact, ok := new(big.Rat).SetString(val.String())
 	if !ok {
-		return 0, false
+		// big.Rat refuses texts beyond its limits (more than a million
+		// fraction digits); they are numbers all the same, so round the
+		// nearest double, which is within the range of int64 here.
+		return floatToInt64(math.Round(approx)), math.Abs(approx) < math.MaxInt64
 	}
 
 	half := big.NewRat(1, 2)
